@@ -277,6 +277,7 @@ class extract_visitor(NodeVisitor):
     def visit_ListComp(self, node):
         # type: (ast.ListComp | ast.GeneratorExp | ast.DictComp | ast.SetComp) -> None
         p = cur = self.flow
+        comp, self.comp = getattr(self, 'comp', None), node
         for g in node.generators:
             self.visit_in_flow(g.iter, p)
             pp = p
@@ -296,6 +297,7 @@ class extract_visitor(NodeVisitor):
         if hasattr(node, 'key'):
             self.visit_in_flow(node.key, p)
 
+        self.comp = comp
         self.flow = self.make_flow('comp-join', [cur, p])
         self.flow.scope.flow = self.flow
 
@@ -337,7 +339,12 @@ class extract_visitor(NodeVisitor):
 
     def visit_NamedExpr(self, node):
         # type: (ast.NamedExpr) -> None
-        eend = get_expr_end(node.value)
+        if getattr(self, 'comp', None):
+            # the parts of a comprehension are not evaluated in source order:
+            # [x for it in items if (x := it)]
+            eend = np(self.comp)
+        else:
+            eend = get_expr_end(node.value)
         name = node.target
         name.flow = self.flow  # type: ignore[attr-defined]
         self.flow.add_name(AssignedName(name.id, eend, np(name), node.value))
